@@ -9,7 +9,7 @@ VARIABLES coord, c
 Bases == {p \in AllParams(0) : /\ p[1] = (p[7] = "u1") /\ p[3] = (p[2] # "none") /\ p[4] = (p[5] = "g")
                                /\ p[2] \in {"none", "u2"} /\ p[8] \in {1, 2, 3, 5}}
 Init == coord \in Bases /\ c = <<>>
-Next == c = <<>> /\ c' \in {[pols |-> ps, base |-> coord] : ps \in PolSets} /\ UNCHANGED coord
+Next == c = <<>> /\ c' \in {[pols |-> ps, base |-> coord] : ps \in PolSetsL} /\ UNCHANGED coord
 Dump == PrintT("CASE " \o ToJson(c'))
 ASSUME PrintT("WORLD " \o ToJson([schema |-> Sc2, envs |-> {[params |-> p, env |-> WireEnv(EnvP(p))] : p \in AllParams(0)}]))
 ASSUME PrintT(<<"bases", Cardinality(Bases)>>)
